@@ -38,20 +38,101 @@ class Roles:
                 self.stages[f['name']] = f['t']
         if len(self.stages) < 3:
             raise AnalysisBroken('File has %d stage members with a mutex, expected 3' % len(self.stages))
+        # paths that no session can take (contradicting tests of the open mode) are not paths of the program
+        FL.path_filter = lambda evs: self.path_mode(evs) is not None
+        FL._pcache = {}
         self.threads = {}     # entry qualified name -> {'mode':..., 'member': thread member name}
         self.calls = []       # stage calls
         self._find_threads()
         self._walk_roots()
 
     # ------------------------------------------------------------------ thread entries and modes
-    @staticmethod
-    def _mode_of_cond(cond):
-        names = {n.get('q') for n in walk(cond) if n.get('k') == 'Ref'}
-        if IOS_IN in names:
-            return 'read'
-        if IOS_OUT in names:
-            return 'write'
+    def _file_locals(self):
+        """single-assignment locals of File's methods -> initialiser (const bool reading = mode & std::ios_base::in;)"""
+        t = self.__dict__.get('_flocals')
+        if t is None:
+            import rules_pipeline
+            t = {}
+            for q, fns in self.F.functions.items():
+                if q.startswith(FILE + '::'):
+                    for g in fns:
+                        t.update(rules_pipeline._alias_table(g))
+            self._flocals = t
+        return t
+
+    def _eval_mode(self, e, cfg, depth=0):
+        """three-valued truth of a condition over the open mode in a session opened with cfg = {in: bool, out: bool}; None = does not say"""
+        e = strip_all_casts(e)
+        while isinstance(e, dict) and e.get('k') == 'Paren':
+            e = strip_all_casts(e.get('sub'))
+        if not isinstance(e, dict) or depth > 12:
+            return None
+        k = e.get('k')
+        if k == 'Ref' and e.get('q') in cfg:
+            return cfg[e['q']]
+        if k == 'Ref' and e.get('dk') == 'local' and e.get('id') in self._file_locals():
+            return self._eval_mode(self._file_locals()[e['id']], cfg, depth + 1)
+        if k == 'Un' and e.get('op') == '!':
+            v = self._eval_mode(e.get('sub'), cfg, depth + 1)
+            return None if v is None else not v
+        if k == 'Bin' and e.get('op') in ('&&', '||'):
+            a = self._eval_mode(e['lhs'], cfg, depth + 1)
+            b = self._eval_mode(e['rhs'], cfg, depth + 1)
+            if e['op'] == '&&':
+                return False if (a is False or b is False) else (True if (a is True and b is True) else None)
+            return True if (a is True or b is True) else (False if (a is False and b is False) else None)
+        args = None
+        if k == 'Bin':
+            args, op = [e['lhs'], e['rhs']], e.get('op')
+        elif k == 'Call' and e.get('ck') == 'operator' and len(e.get('args', [])) == 2:
+            args, op = e['args'], e.get('op')
+        if args:
+            sides = [strip_all_casts(a) for a in args]
+            flags = [a for a in sides if isinstance(a, dict) and a.get('k') == 'Ref' and a.get('q') in cfg]
+            if op == '&' and len(flags) == 1:
+                return cfg[flags[0]['q']]                       # mode & in
+            if op in ('==', '!=') and len(flags) == 1:
+                v = cfg[flags[0]['q']] and not any(cfg[q] for q in cfg if q != flags[0]['q'])   # mode == in
+                return v if op == '==' else not v
+            if op in ('==', '!='):
+                zero = [a for a in sides if isinstance(a, dict) and a.get('v') == 0]
+                if len(zero) == 1:
+                    other = [a for a in sides if a is not zero[0]][0]
+                    v = self._eval_mode(other, cfg, depth + 1)  # (mode & in) != 0
+                    return None if v is None else (v if op == '!=' else not v)
         return None
+
+    def _mode_of_cond(self, cond):
+        """the mode a session must have for the condition to hold (one of in / out per session): 'read', 'write' or None.  Decided on the
+        truth of the condition in a read session and in a write session, with File's single-assignment locals resolved - `if (reading)`,
+        `if (!(reading || !writing))` and `if (mode & std::ios_base::in)` ... `else` say the same as the flag tests they stand for"""
+        vals = {'read': self._eval_mode(cond, {IOS_IN: True, IOS_OUT: False}), 'write': self._eval_mode(cond, {IOS_IN: False, IOS_OUT: True})}
+        if all(v is None for v in vals.values()):
+            return None
+        possible = [m for m, v in vals.items() if v is not False]
+        return possible[0] if len(possible) == 1 else None
+
+    _CFGS = (('read', {IOS_IN: True, IOS_OUT: False}), ('write', {IOS_IN: False, IOS_OUT: True}), ('none', {IOS_IN: False, IOS_OUT: False}))
+
+    def path_mode(self, evs):
+        """the session mode a path belongs to, from ALL its mode branches, taken or not: 'read' / 'write' when only that kind of session
+        is consistent with every outcome, 'any' when the path does not say, None when no session (one of in / out, or neither) can take it -
+        `if (reading) {...}  if (!(reading || !writing)) {...}` has no path through both blocks"""
+        ok = []
+        for name, cfg in self._CFGS:
+            good = True
+            for e in evs:
+                if e['ev'] == 'branch' and not e.get('loop'):
+                    v = self._eval_mode(e['n'], cfg)
+                    if v is not None and v != bool(e['taken']):
+                        good = False
+                        break
+            if good:
+                ok.append(name)
+        if not ok:
+            return None
+        real = [m for m in ok if m != 'none']
+        return real[0] if len(ok) == 1 and real else ('any' if len(ok) > 1 else 'any')
 
     def _find_threads(self):
         F = self.F
@@ -76,7 +157,7 @@ class Roles:
             if s.get('k') == 'If':
                 m = self._mode_of_cond(s['cond']) or mode
                 rec(s.get('then'), m, env, depth)
-                rec(s.get('else'), mode, env, depth)
+                rec(s.get('else'), self._mode_of_cond({'k': 'Un', 'op': '!', 'sub': s['cond']}) or mode, env, depth)
                 return
             if s.get('k') == 'Call' and s.get('ck') == 'operator' and s.get('op') == '=' and (s.get('cls') or '').startswith('std::thread'):
                 # m_xThread = std::thread(entry, this)
@@ -248,10 +329,7 @@ class Roles:
         for evs, out in paths:
             starts = [i for i, e in enumerate(evs) if e['ev'] == 'call' and (e['n'].get('cls') or '').startswith('std::thread') and e['n'].get('k') == 'Construct' and e['n'].get('args')]
             first = starts[0] if starts else len(evs)
-            mode = 'any'
-            for e in evs:
-                if e['ev'] == 'branch' and e['taken'] and self._mode_of_cond(e['n']):
-                    mode = self._mode_of_cond(e['n'])
+            mode = self.path_mode(evs) or 'any'
             self._walk_events(fn, evs, 'APP', lambda i: mode, lambda i: 'pre-start' if i < first else 'concurrent')
 
     def _walk_close(self, fn):
